@@ -1,3 +1,4 @@
+import HqModel.Props.WorkerSide
 import HqModel.Props.C13
 /-!
 # C02 — no task is lost or stuck; the two registries agree
